@@ -42,15 +42,25 @@ CLOCKS = ["260102030405", "2026010203040567", "2026-01-02T03:04:05.670000+00:00"
 T = lambda s: "t" + hexs(s)  # noqa: E731
 SVIDS = ["n1001", "n1002", "n1003", "n1004", "n1005", "n30", "n31", T("sv-t"), "n99", T("zz"), "n30.30", "n"]
 SVID_W = [3, 2, 2, 4, 4, 5, 3, 3, 2, 1, 1, 1]
-ECIDS = ["n1", "n2", "n30", "n31", T("ec-f"), "n99", T("zz"), "n30.30", "n"]
-ECID_W = [4, 5, 6, 4, 5, 2, 1, 1, 1]
+ECIDS = ["n1", "n2", "n30", "n31", T("ec-f"), "n32", "n33", "n99", T("zz"), "n30.30", "n"]
+ECID_W = [4, 5, 6, 4, 5, 5, 4, 2, 1, 1, 1]
+ECID_TAME = [4, 5, 6, 4, 5, 5, 4, 1, 0, 0, 0]
 ALIDS = ["n7", "n8", "n99", "n7.7"]
 # (id, name, min, max, default, unit, value_type, int-typed)
 EC_DEFS = [("n1", "EstablishCommunicationsTimeout", 10, 120, 10, "sec", None, True),
            ("n2", "TimeFormat", 0, 2, 1, "", None, True),
            ("n30", "ec30", 0, 100, 50, "u", V.U4, True),
            ("n31", "ec31", -5, 5, 0, "mm", V.I4, True),
-           (T("ec-f"), "ecf", -1.5, 1.5, 0.0, "V", V.F8, False)]
+           (T("ec-f"), "ecf", -1.5, 1.5, 0.0, "V", V.F8, False),
+           ("n32", "ec32", -100, 0, -1, "C", V.I4, True),       # declared maximum exactly 0 (a falsy limit), negative minimum
+           ("n33", "ec33", 0, 0, 0, "", V.U4, True)]            # minimum == maximum == 0
+# configuration B (direct oracle only, the Lean model has no constants without limits): A plus a constant with min = max = None
+EC_DEFS_B = EC_DEFS + [("n34", "ec34", None, None, 0.0, "", V.F8, False)]
+ACTIVE = [EC_DEFS]
+
+
+def defs():
+    return ACTIVE[0]
 AL_DEFS = [("n7", 3, "hot"), ("n8", 5, "cold")]
 
 
@@ -79,15 +89,16 @@ def pykey(i: str):
 
 # ---------------------------------------------------------------------------------------------- generation
 def gen_ecv(rng, ecid: str) -> str:
-    d = next((e for e in EC_DEFS if e[0] == ecid), None)
-    lo, hi = (d[2], d[3]) if d else (0, 10)
+    d = next((e for e in defs() if e[0] == ecid), None)
+    lo, hi = (d[2], d[3]) if d and d[2] is not None else (-10, 10)
     k = rng.below(100)
-    if k < 30:
+    if k < 26:
         return cnum(rng.range(math.ceil(lo), math.floor(hi)))
     if k < 42:
-        return cnum(rng.choice([lo, hi]))
-    if k < 54:
-        return cnum(rng.choice([math.floor(lo) - 1, math.ceil(hi) + 1, math.floor(lo) - 100, math.ceil(hi) + 1000]))
+        return cnum(rng.choice([lo, hi, math.ceil(lo) + 1, math.floor(hi) - 1]))      # the limits and one step inside
+    if k < 56:
+        return cnum(rng.choice([math.floor(lo) - 1, math.ceil(hi) + 1, math.floor(lo) - 1, math.ceil(hi) + 1,
+                                math.floor(lo) - 100, math.ceil(hi) + 1000]))       # one step outside, far outside
     if k < 72:
         x = rng.choice([lo + 0.5, hi - 0.5, float(lo), float(hi), (lo + hi) / 2 + 0.25,
                         math.nextafter(float(hi), math.inf), math.nextafter(float(lo), -math.inf)])
@@ -97,6 +108,15 @@ def gen_ecv(rng, ecid: str) -> str:
     if k < 93:
         return "o"
     return rng.choice(["i1", "i0"])
+
+
+def ecids():
+    return ECIDS if defs() is EC_DEFS else ["n34"] + ECIDS
+
+
+def ecid_w(tame=False):
+    w = ECID_TAME if tame else ECID_W
+    return w if defs() is EC_DEFS else [8] + w
 
 
 def gen_op(rng, wild: bool) -> str:
@@ -111,14 +131,17 @@ def gen_op(rng, wild: bool) -> str:
     if k < 20:
         return "S11:" + ids(SVIDS, SVID_W, 10)
     if k < 34:
-        return "E13:" + ids(ECIDS, ECID_W, 7)
+        return "E13:" + ids(ecids(), ecid_w(), len(ecids()) - 2)
     if k < 40:
-        return "E29:" + ids(ECIDS, ECID_W, 7)
+        return "E29:" + ids(ecids(), ecid_w(), len(ecids()) - 2)
     if k < 64:
         ps = []
         for _ in range(rng.choice([1, 1, 2, 2, 3])):
-            e = weighted(rng, ECIDS, ECID_W if wild else [4, 5, 6, 4, 5, 1, 0, 0, 0])
-            ps.append(e + "=" + gen_ecv(rng, e))
+            e = weighted(rng, ecids(), ecid_w() if wild else ecid_w(True))
+            v = gen_ecv(rng, e)
+            if e == "n34" and v in ("o", "fnan"):
+                v = "i3"     # without limits nothing refuses a non-number; what is stored then is not pinned by the property
+            ps.append(e + "=" + v)
         return "E15:" + ",".join(ps)
     if k < 74:
         return f"A3:{rng.choice([128, 128, 128, 0, 0, 1, 255])}:" + weighted(rng, ALIDS, [5, 5, 2, 1 if wild else 0])
@@ -169,7 +192,7 @@ class Run:
         h.status_variables[31].value = 0.5
         h.status_variables["sv-t"] = secsgem.gem.StatusVariable("sv-t", "svt", "", V.String)
         h.status_variables["sv-t"].value = "x"
-        for i, name, lo, hi, df, unit, vt, _ in EC_DEFS:
+        for i, name, lo, hi, df, unit, vt, _ in defs():
             if vt is not None:
                 h.equipment_constants[pykey(i)] = secsgem.gem.EquipmentConstant(pykey(i), name, lo, hi, df, unit, vt)
         for i, code, text in AL_DEFS:
@@ -262,7 +285,8 @@ class Ref:
 
     def __init__(self):
         self.sv = {"n30": "n7", "n31": "f1/1", T("sv-t"): T("x")}
-        self.ec = {d[0]: d[4] for d in EC_DEFS}           # id -> Python number
+        self.defs = defs()
+        self.ec = {d[0]: d[4] for d in self.defs}           # id -> Python number
         self.al = {d[0]: [False, False] for d in AL_DEFS}  # id -> [enabled, set]
         self.ect, self.tf = 10, 1
 
@@ -284,7 +308,7 @@ class Ref:
                 "n1005": ("AlarmsSet", ""), "n30": ("sv30", "u"), "n31": ("sv31", "K"), T("sv-t"): ("svt", "")}
 
     def ec_value(self, i):
-        d = next(e for e in EC_DEFS if e[0] == i)
+        d = next(e for e in self.defs if e[0] == i)
         if i == "n1":
             return "n" + str(self.ect)
         if i == "n2":
@@ -310,16 +334,16 @@ class Ref:
             return "n[" + ";".join(f"{i}~{hexs(self.SV_NAMES[i][0])}~{hexs(self.SV_NAMES[i][1])}" if i in self.SV_NAMES else f"{i}~~"
                                    for i in (ids or self.SV_ORDER)) + "]"
         if head == "E13":
-            vals = [(self.ec_value(i) if i in self.ec else "l") for i in (ids or [d[0] for d in EC_DEFS])]
+            vals = [(self.ec_value(i) if i in self.ec else "l") for i in (ids or [d[0] for d in self.defs])]
             return "UNSHOWABLE" if any(v is None for v in vals) else "v[" + ",".join(vals) + "]"
         if head == "E29":
             rows = []
-            for i in (ids or [d[0] for d in EC_DEFS]):
-                d = next((e for e in EC_DEFS if e[0] == i), None)
+            for i in (ids or [d[0] for d in self.defs]):
+                d = next((e for e in self.defs if e[0] == i), None)
                 if d is None:
                     rows.append(f"{i}~~t~t~t~")
                 else:
-                    sh = lambda x: cfloat(x) if isinstance(x, float) else "n" + str(x)  # noqa: E731
+                    sh = lambda x: "t" if x is None else cfloat(x) if isinstance(x, float) else "n" + str(x)  # noqa: E731
                     rows.append(f"{i}~{hexs(d[1])}~{sh(d[2])}~{sh(d[3])}~{sh(d[4])}~{hexs(d[5])}")
             return "c[" + ";".join(rows) + "]"
         if head == "A7":
@@ -379,9 +403,9 @@ class Ref:
             for k, v in after.items():
                 self.ec[k] = tok_value(v)
             self.ect, self.tf = int(ect), int(tf)
-        for d in EC_DEFS:
+        for d in self.defs:
             x = self.ec[d[0]]
-            if not (d[2] <= x <= d[3]):
+            if d[2] is not None and not (d[2] <= x <= d[3]):
                 bad = bad or ("constant-outside-limits", f"after {op}: constant {d[0]} = {x!r} outside [{d[2]}, {d[3]}]")
         if not (10 <= self.ect <= 120 and 0 <= self.tf <= 2):
             bad = bad or ("constant-outside-limits", f"after {op}: timeout {self.ect} / time format {self.tf} outside the declared limits")
@@ -399,8 +423,9 @@ def tok_value(tok: str):
     return int(num) / (1 << int(k))
 
 
-def run_history(ops, salt, direct, gen=None):
+def run_history(ops, salt, direct, gen=None, cfgb=False):
     """-> (answers 'out@ecs|ect|tf@alarms', first oracle violation (index, class, what) or None)"""
+    ACTIVE[0] = EC_DEFS_B if cfgb else EC_DEFS
     run = Run(salt, direct)
     ref = Ref()
     try:
@@ -457,7 +482,7 @@ def model_prefix(tc: bool):
 def is_finding_case(ops) -> bool:
     """the recorded finding: an accepted S2F15 carries a float for an integer-typed constant (30 or 31), a later S2F13 asks for it"""
     for j, op in enumerate(ops):
-        if op.startswith("E15:") and any(p.split("=")[0] in ("n30", "n31") and p.split("=")[1].startswith("f") for p in op[4:].split(",")):
+        if op.startswith("E15:") and any(p.split("=")[0] in ("n30", "n31", "n32", "n33") and p.split("=")[1].startswith("f") for p in op[4:].split(",")):
             if any(o.startswith("E13:") for o in ops[j + 1:]):
                 return True
     return False
@@ -483,7 +508,7 @@ def main():
         for v in body.get("violations", []):
             c = v.get("case") or {}
             if "ops" in c:
-                cases.append((c["ops"], c.get("salt", 0), c.get("direct", False), None))
+                cases.append((c["ops"], c.get("salt", 0), c.get("direct", False), None, c.get("cfgb", False)))
     else:
         corpus = [
             ["E15:n2=i0,n1=fnan", "E13:", "S3:n1001"],                                      # F-17 (fixed): NaN after a valid constant
@@ -492,23 +517,29 @@ def main():
             ["E15:n2=i0", "S3:n1001", "E15:n2=i2", "S3:n1001,n1001", "E15:n2=f3/1", "S3:", "S11:", "E15:n1=f21/1", "E13:n1,n2"],
             ["E15:n30=f3/1", "E13:n30"],                                                     # the finding's witness
         ]
+        corpus += [
+            ["E15:n32=i0", "E15:n32=i1", "E15:n32=i-100", "E15:n32=i-101", "E15:n30=i7,n32=i5", "E13:n32,n30"],   # a maximum of exactly 0
+            ["E15:n33=i0", "E15:n33=i1", "E15:n33=i-1", "E15:n33=f1/1", "E15:n31=i2,n33=i1", "E13:n33,n31", "E29:n32,n33"],
+        ]
         for ops in corpus:
-            cases.append((ops, 0, False, None))
-            cases.append((ops, 5, True, None))
+            cases.append((ops, 0, False, None, False))
+            cases.append((ops, 5, True, None, False))
+        cases.append((["E15:n34=i1000000", "E15:n34=f-5/1,n32=i1", "E13:n34,n32", "E29:n34", "E15:n34=i0,n33=i0", "E13:"], 2, False, None, True))
         n_hist = 2000 if a.tier == "thorough" else 600 if a.search else 400
         max_len = 40 if a.tier == "thorough" else 30 if a.search else 12
         for i in range(n_hist):
             n = rng.range(1, max_len) if rng.chance(1, 3) else max_len
-            cases.append(([], rng.below(1000), not rng.chance(1, 3), (rng.fork(f"h{i}"), n, rng.chance(1, 4))))
+            cases.append(([], rng.below(1000), not rng.chance(1, 3), (rng.fork(f"h{i}"), n, rng.chance(1, 4)), i % 8 == 7))
 
     lines, impls, metas = [], [], []
     seen_finding = False
-    for ops, salt, direct, gen in cases:
-        ans, bad = run_history(ops, salt, direct, gen)
+    for ops, salt, direct, gen, cfgb in cases:
+        ans, bad = run_history(ops, salt, direct, gen, cfgb)
         acks = [x.split("@")[0] for o, x in zip(ops, ans) if o.startswith("E15")]
         res.count(("hist", tuple(ops)), nontrivial=("a0" in acks and any(k in acks for k in ("a1", "a3"))),
                   sample={"ops": ops[:8], "path": "callbacks" if direct else "full message path"} if len(res.samples) < 4 else None)
         res.bump("path", "callbacks" if direct else "full")
+        res.bump("config", "B (unlimited constant, oracle only)" if cfgb else "A (modelled)")
         for o, x in zip(ops, ans):
             out = x.split("@")[0]
             kind = o.split(":")[0] if o[0] != "V" else "V"
@@ -520,17 +551,19 @@ def main():
             if klass == FINDING and seen_finding:
                 pass  # one minimised instance of the recorded finding is enough
             else:
-                def still(sub, klass=klass, salt=salt, direct=direct):
-                    _, b = run_history(sub, salt, direct)
+                def still(sub, klass=klass, salt=salt, direct=direct, cfgb=cfgb):
+                    _, b = run_history(sub, salt, direct, None, cfgb)
                     return b is not None and b[1] == klass
                 small = ops[: i + 1]
                 if len(res.violations) < 4:
                     small = hlib.ddmin(small, gemlib.bounded(still, 120))
-                _, b2 = run_history(small, salt, direct)
+                _, b2 = run_history(small, salt, direct, None, cfgb)
                 if klass == FINDING and not is_finding_case(small):
                     klass = "s2f13-abort"   # an abort of S2F13 that is NOT the recorded witness class
                 seen_finding = seen_finding or klass == FINDING
-                res.violate(klass, (b2 or bad)[2], {"ops": small, "salt": salt, "direct": direct})
+                res.violate(klass, (b2 or bad)[2], {"ops": small, "salt": salt, "direct": direct, "cfgb": cfgb})
+        if cfgb:
+            continue
         lines.append(prefix + " " + " ".join(ops))
         impls.append(ans)
         metas.append((ops, salt, direct))
